@@ -179,6 +179,10 @@ class C06World(TableWorld):
             ENV.set_actor("envG")
             try:
                 self.handle(2).garbage_collect(GRACE_MS)
+            except HarnessError:
+                raise
+            except Exception:  # noqa - a collection that aborts is an outcome, the final state is judged
+                self.rep.add("environment_collections_that_raised")
             finally:
                 ENV.set_actor("setup")
             return
